@@ -115,7 +115,10 @@ public:
 		for(size_t i = 0; i < _length; i++) {
 			if(!(_pointer[i] >= '0' && _pointer[i] <= '9'))
 				return null_opt;
-			value = value * 10 + (_pointer[i] - '0');
+			// A number that does not fit into T is not a number of that type.
+			if(__builtin_mul_overflow(value, T(10), &value)
+					|| __builtin_add_overflow(value, T(_pointer[i] - '0'), &value))
+				return null_opt;
 		}
 		return value;
 	}
